@@ -148,11 +148,46 @@ class PyDict:
         self.pairs = list(pairs) if pairs is not None else []
 
 
-class PyDeque:
-    __slots__ = ("items",)
+class OpenRest:
+    """unknown front part of an open deque: `cnt` chunks whose concatenation is `seq`; `blk` is the
+    rope block standing for that concatenation (one object, so ropes built from it align)."""
+    __slots__ = ("seq", "cnt", "blk")
 
-    def __init__(self, items=None):
-        self.items = list(items) if items is not None else []
+    def __init__(self, seq, cnt, n):
+        self.seq = seq
+        self.cnt = cnt
+        self.blk = Blk(seq, n, str(seq)[:30], True)
+
+    def __iter__(self):
+        return iter((self.seq, self.cnt))
+
+    def __getitem__(self, i):
+        return (self.seq, self.cnt)[i]
+
+
+class PyDeque:
+    """deque.  `rest` (None or (seq, count)): an unknown number `count` >= 0 (z3 Int) of byte-string
+    chunks at the FRONT of the deque whose concatenation is the z3 Seq(Int) term `seq` ("open"
+    deque); `_items` follow them.  Consumers that read `.items` of an open deque get Unsupported."""
+    __slots__ = ("_items", "rest")
+
+    def __init__(self, items=None, rest=None):
+        self._items = list(items) if items is not None else []
+        self.rest = rest
+
+    @property
+    def items(self):
+        if self.rest is not None:
+            from .explore import Unsupported
+            raise Unsupported("operation on a deque of unknown length (open deque)")
+        return self._items
+
+    @items.setter
+    def items(self, v):
+        if self.rest is not None:
+            from .explore import Unsupported
+            raise Unsupported("operation on a deque of unknown length (open deque)")
+        self._items = v
 
 
 class PySet:
